@@ -90,6 +90,8 @@ def tasks(tier):
     # the selector establishes the scanners' precondition on the field selection (non-negative, increasing indices)
     from props.C01_api import SelectorInit
     sel = [SelectorInit(nf, form) for nf in (1, 3) for form in ("int", "slice", "list1", "list2", "list3", "names")]
+    from props.C01_api import StreamIterSel
+    sel += [StreamIterSel(f) for f in ("int", "slice", "slice-step", "list2")]      # the on-demand iterator: requested order
     for t in sel:
         t.prop = "C15"
     return out + api_tasks(tier) + sel
@@ -111,7 +113,7 @@ SCENARIO_TIMEOUT = 240
 
 
 def scenarios(tier, seed):
-    n = 3 if tier == "quick" else 12
+    n = 6 if tier == "quick" else 12
     return [{"kind": "iter_sweep", "seed": seed * 1000 + 50 + i, "ndims": 3 if i % 2 == 0 else 2,
              "nf": [4, 2, 6, 1][i % 4], "nlevels": 1 + i % 2, "nfiles": 1 + i % 4,
              "layout": ["shuffled", "roundrobin", "monotone"][i % 3]} for i in range(n)]
